@@ -1024,10 +1024,17 @@ pub fn gen_cap_server(tapes: &[Vec<u32>]) -> RawCase {
     let k = 1 + t.below(4);
     let return_variant = k >= 2 && t.chance(2, 5);
     let settings_variant = return_variant && t.chance(1, 3);
-    let peer_iw = if return_variant { 1 << 20 } else { *t.pick(&[65535u32, 1000, 100_000, 1 << 20]) };
+    let peer_iw = if return_variant { 1 << 20 } else { *t.pick(&[65535u32, 1000, 100_000, 1 << 20, 100, 0x7fff_ffff]) };
+    // the peer may advertise an initial window of zero and open each stream's window by WINDOW_UPDATE
+    let zero_start = !return_variant && t.chance(1, 6);
     let mut script: Vec<PStep> = vec![PStep::Barrier];
     for i in 0..k {
         script.push(hdr(2 * i as u32 + 1, "GET", true));
+    }
+    if zero_start {
+        for i in 0..k {
+            script.push(fr(Frame::WinUp { stream: 2 * i as u32 + 1, inc: peer_iw, inc_r: false }));
+        }
     }
     script.push(PStep::Barrier);
     let mut ops: Vec<CapOp> = Vec::new();
@@ -1228,7 +1235,7 @@ pub fn gen_cap_server(tapes: &[Vec<u32>]) -> RawCase {
         script.push(PStep::WaitEnd(2 * i as u32 + 1));
     }
     script.push(PStep::Barrier);
-    let spec = RawSpec { peer_settings: vec![(4, peer_iw)], script, grant, close_at_end: true };
+    let spec = RawSpec { peer_settings: vec![(4, if zero_start { 0 } else { peer_iw })], script, grant, close_at_end: true };
     let mut b = base(&mut t, tapes, cfg, vec![]);
     b.cap = Some(CapProgram { streams: k, ops });
     let inj = Inject { item: item.into(), state: format!("{}-streams", k), class: Class::Either, stream: 0, basis: "SendStream::{reserve_capacity, capacity, poll_capacity} documentation".into(), never_surface: vec![], must_deliver: vec![], must_deliver_streams: vec![], no_head: vec![], no_clean_end: vec![], prop: "C16".into(), wire_optional: true };
